@@ -207,15 +207,27 @@ class SnapshotManager:
 
     def get_snapshot_by_timestamp(self, timestamp_ms: int) -> Optional[Snapshot]:
         """Get the most recent snapshot before or at the given timestamp"""
-        snapshots = self.get_all_snapshots()
+        metadata = self.metadata_manager.refresh()
+        if not metadata:
+            return None
 
-        # Find the most recent snapshot at or before the timestamp
+        # Walk the snapshots in COMMIT order (the snapshot log) and keep the last
+        # one whose timestamp is not newer than the request - the most recently
+        # committed state as of that time. Sorting by timestamp and stopping at
+        # the first later one is only equivalent while timestamps are monotone;
+        # writers with skewed clocks (or a clock stepped back) commit snapshots
+        # whose timestamps are out of order, and the sorted walk then answers
+        # with a snapshot that had already been superseded.
+        by_id = {s.snapshot_id: s for s in metadata.snapshots}
+        ordered = [by_id[e.snapshot_id] for e in metadata.snapshot_log if e.snapshot_id in by_id]
+        logged = {s.snapshot_id for s in ordered}
+        # snapshots without a log entry (legacy metadata) keep their list order, first
+        ordered = [s for s in metadata.snapshots if s.snapshot_id not in logged] + ordered
+
         target_snapshot = None
-        for snapshot in sorted(snapshots, key=lambda s: s.timestamp_ms):
+        for snapshot in ordered:
             if snapshot.timestamp_ms <= timestamp_ms:
                 target_snapshot = snapshot
-            else:
-                break
 
         return target_snapshot
 
